@@ -76,7 +76,13 @@ def dct2arr(dct, phases, chemicals):
 
 def split_coefficient(nID, sign):
     for i, letter in enumerate(nID):
-        if letter != 'e' and letter.isalpha(): break
+        if letter == 'e':
+            # exponent of a coefficient only when it sits between a digit and a digit or sign
+            next_letter = nID[i+1:i+2]
+            if i and (nID[i-1].isdigit() or nID[i-1] == '.') and (next_letter.isdigit() or next_letter in ('+', '-')):
+                continue
+            break
+        elif letter.isalpha(): break
     if i: 
         ID = nID[i:]
         n = sign * float(nID[:i])
